@@ -38,7 +38,18 @@ ASSUMPTIONS = [
     "'tiny' axis style, ratio = 1 in 5% of the cases): solve must still return its shape "
     "(fixes/C08-quality-zero-division.diff; the unrepaired code raised ZeroDivisionError after solving)",
     "occupancy values are not restricted to [0, 1]: 0, quarters up to 1, 5/4 and 2 are generated",
-    "coordinates and occupancies are dyadic so that every product the code forms is exact in binary64",
+    "coordinates and occupancies are dyadic so that every product the code forms is exact in binary64 (all cases "
+    "compared with the model); decimal coordinates occur only in the allocation path and are judged by the direct "
+    "oracle alone (shape set, returned rectangles = boxes; the cost bound is then trivially met because the code's "
+    "binary64 area products may truncate differently from exact arithmetic)",
+    "allocation path (every 8th case): the grid is written as an allocation text ([xc, yc, w, h] exact decimal "
+    "literals + {module: ratio}), read by the real frame Allocation through rect_io.get_alloc, and select_box('M') "
+    "produces the input of the search; an Allocation lives in the positive quadrant, keeps ratios in [0, 1] and "
+    "divides by the total area of every listed module (so a listed module has a positive ratio somewhere) - the "
+    "generator keeps to that; Rectangle's process-wide epsilon is undefined before and after",
+    "select_box's snapping tolerance is 1e-9 x the largest coordinate magnitude (binary64 product in the code, exact "
+    "rational in the model): generated grid lines are at least 1/100 apart with magnitudes below 2^10, so no "
+    "comparison is near the threshold",
     "PySAT is trusted as sound and complete (Section variable sat_o in the theorems)",
     "the process-wide diagram store is reset to [0, 1] before a case and then filled by the case's own earlier "
     "solve (history); the store found at the start of the observed solve is the model's initial store",
@@ -231,8 +242,16 @@ def through_allocation(case):
     """rect_io.get_alloc + select_box on the allocation of the case's grid: (ifile, input_problem)."""
     import tools.rect.rect_io as IO
     from frame.geometry.geometry import Rectangle
+    import os
+    import tempfile
     Rectangle.undefine_epsilon()
-    ifile = IO.get_alloc(alloc_text(case))
+    fd, path = tempfile.mkstemp(prefix="c08-alloc-", suffix=".yaml")      # get_alloc takes a file name
+    try:
+        with os.fdopen(fd, "w") as f:
+            f.write(alloc_text(case))
+        ifile = IO.get_alloc(path)
+    finally:
+        os.unlink(path)
     inp, _ = IO.select_box("M", ifile)
     Rectangle.undefine_epsilon()
     return ifile, [tuple(float(v) for v in c) for c in inp]
@@ -781,14 +800,19 @@ def dist_key(case):
 
 def run(ctx, out, replay=None):
     n = 500 if ctx.quick() else 7000
-    out.rule = ("full grids of 1x1 .. 5x5 cells on strictly increasing dyadic coordinate lists (unit, integer "
-                "non-uniform, fractional extent, shifted integer / fractional / negative origin, independently per "
-                "axis), cells listed row-major, column-major or shuffled, k 1..3, occupancies in quarters, factor "
-                "2..16, ratio 2, 3, 2.5, 1.5, bounds from trivially met to unsatisfiable; 6% grids with a missing "
-                "cell and 3% with a degenerate cell (KeyError) for the correspondence only; 15% after an earlier "
-                "solve in the same process; for <= 9 cells every model of the solver's formula projected on the cell "
-                "variables is enumerated with PySAT and compared with the independent enumeration of shapes meeting "
-                "the bound; non-trivial = full grid with >= 3 cells and k >= 2; distinct by hash")
+    out.rule = ("full grids of 1x1 .. 5x5 (and 6x1, 1x6) cells on strictly increasing dyadic coordinate lists (unit, "
+                "integer non-uniform, fractional extent, shifted integer / fractional / negative origin, cells so small "
+                "that the integer areas vanish - independently per axis); half of the cases from the ten smallest sizes, "
+                "five of which are a single row or column; cells listed row-major, column-major or shuffled; k 1..3; "
+                "occupancies 0, quarters up to 1, 5/4 and 2 (4% all zero, 3% only 0/1); factor 2..16; ratio 2, 3, 2.5, "
+                "1.5 and (1 in 20) 1; bounds from trivially met to unsatisfiable; 6% grids with a missing cell and 3% with "
+                "a degenerate cell (KeyError) for the correspondence only; 15% after an earlier solve in the same process; "
+                "every 8th case reaches the search through a real Allocation, rect_io.get_alloc and select_box - "
+                "alternately with dyadic numbers (select_box compared with the model exactly) and with decimal "
+                "coordinates (tenths, hundredths, twentieths; uniform or not; direct oracle only); for <= 9 cells every "
+                "model of the solver's formula projected on the cell variables is enumerated with PySAT and compared "
+                "with the independent enumeration of shapes meeting the bound; the variable table (registration "
+                "order) is compared as well; non-trivial = full grid with >= 3 cells and k >= 2; distinct by hash")
     cases = []
     if replay and "case" in replay:
         cases.append(fr.unjson(replay["case"]))
